@@ -379,10 +379,9 @@ impl Scanner {
             // a valid rust char must be a valid go rune
             // hence we do not check char ranges
             // see comment for `is_unicode_char`
-            char::from_u32(
-                u32::from_str_radix(&String::from_iter(sequence), radix)
-                    .expect("here must be a valid u32"),
-            )
+            let value = u32::from_str_radix(&String::from_iter(sequence), radix)
+                .expect("here must be a valid u32");
+            char::from_u32(value).filter(|_| radix != 8 || value <= 255)
         })
         .ok_or_else(|| self.error("invalid Unicode code point"))?;
 
